@@ -436,6 +436,11 @@ func GenBankParser(state *pars.State, result *pars.Result) error {
 		}
 	}
 
+	if n := gb.Origin.Len(); n != length && !(n == 0 && gb.Fields.Contig.Accession != "") {
+		what := fmt.Sprintf("sequence length %d does not match the length %d declared in the LOCUS line", n, length)
+		return pars.NewError(what, state.Position())
+	}
+
 	result.SetValue(*gb)
 	return nil
 }
